@@ -113,6 +113,60 @@ static int mtmix_run(int P, unsigned seed, int n, int pos, int kind) {
     return 0;
 }
 
+// a limited REJECTING node fed by a buffering predecessor (queue_node): a rejected message stays in the queue, the edge flips to pull
+// mode and the node must pull it when a slot frees — also when the last body finishes exactly between the rejection and the
+// registration of the predecessor (then the node's forwarder task has to pull).  Rounds: the node is busy with `conc` messages whose
+// bodies spin 0-3 us, further messages are put from inside the graph at about the time those bodies return; after every round
+// wait_for_all() must mean idle: everything put was processed exactly once and nothing is left in the queue.
+static void spin_ns(long ns) { auto end = std::chrono::steady_clock::now() + std::chrono::nanoseconds(ns); while (std::chrono::steady_clock::now() < end) {} }
+static int mtpull_run(int P, unsigned seed, int rounds, int conc) {
+    tbb::global_control gc(tbb::global_control::max_allowed_parallelism, P);
+    graph g;
+    std::atomic<long> processed{0}, in_body{0}, over{0}, dup{0}, started{0}; std::atomic<bool> hold{false}; std::atomic<long> spin_a{0};
+    std::vector<std::atomic<char>> seen((size_t)rounds * 8 + 64); for (auto& x : seen) x = 0;
+    queue_node<long> Q(g);
+    function_node<long, long, rejecting> F(g, (size_t)conc, [&](long id) -> long {
+        if (++in_body > conc) over++;
+        if (seen[id].exchange(1)) dup++;
+        started++;
+        while (hold.load()) std::this_thread::yield();
+        long s = spin_a.load(); if (s) spin_ns(s);
+        ++processed; --in_body; return id;
+    });
+    make_edge(Q, F);
+    struct kick { long id; long delay_ns; long base; };
+    function_node<kick, continue_msg> K(g, unlimited, [&](const kick& k) -> continue_msg {
+        auto limit = std::chrono::steady_clock::now() + std::chrono::milliseconds(20);
+        while (started.load() < k.base && std::chrono::steady_clock::now() < limit) {}
+        if (k.delay_ns) spin_ns(k.delay_ns);
+        Q.try_put(k.id); return continue_msg();
+    });
+    long put = 0, next_id = 0;
+    // preparation: the node is full and held, one more message is rejected -> the queue becomes a predecessor, the forwarder runs while the node is full
+    hold = true;
+    for (int i = 0; i < conc; ++i) { Q.try_put(next_id++); ++put; }
+    for (int k = 0; k < 50000 && started.load() < conc; ++k) std::this_thread::yield();
+    Q.try_put(next_id++); ++put;
+    std::this_thread::sleep_for(std::chrono::milliseconds(20));
+    hold = false;
+    g.wait_for_all();
+    long lost_round = -1;
+    if (processed.load() != put) lost_round = 0;
+    std::mt19937 rng(seed);
+    for (int r = 1; r <= rounds && lost_round < 0; ++r) {
+        long base = started.load();
+        spin_a = (long)(rng() % 3000);
+        for (int i = 0; i < conc; ++i) { Q.try_put(next_id++); ++put; }               // straight through the queue into the idle node
+        int extra = 1 + (int)(rng() % 2);
+        for (int i = 0; i < extra; ++i) { K.try_put(kick{next_id++, (long)(rng() % 3000), base + conc}); ++put; }   // arrive while / just after those bodies run
+        g.wait_for_all();
+        if (processed.load() != put) lost_round = r;
+    }
+    long stuck = 0; long tmp; while (Q.try_get(tmp)) stuck++;
+    std::printf("NOTPROCESSED %ld LEFTINQUEUE %ld DUP %ld OVERLIMIT %ld INROUND %ld\n", put - processed.load(), stuck, dup.load(), over.load(), lost_round < 0 ? 0 : lost_round + 1);
+    return 0;
+}
+
 int main(int argc, char** argv) {
     std::string mode = argc > 1 ? argv[1] : "";
     if (mode == "seq") {
@@ -122,6 +176,7 @@ int main(int argc, char** argv) {
         return 0;
     }
     if (mode == "mtmix") return mtmix_run(atoi(argv[2]), (unsigned)atoi(argv[3]), atoi(argv[4]), atoi(argv[5]), atoi(argv[6]));
+    if (mode == "mtpull") return mtpull_run(atoi(argv[2]), (unsigned)atoi(argv[3]), atoi(argv[4]), atoi(argv[5]));
     if (mode == "mt") return mt_run(atoi(argv[2]), (unsigned)atoi(argv[3]), atoi(argv[4]), atoi(argv[5]), atoi(argv[6]));
     return 2;
 }
